@@ -326,7 +326,52 @@ def flanking_stage(tier, rep):
     rep.cov["scanDelims_calls_validated"] = sum(len(j) for j in jobs)
 
 
+def leaf_record(lines):
+    from markdown_it import MarkdownIt
+
+    if not _LT:
+        _LT.append(MarkdownIt("commonmark"))
+    md = _LT[0]
+    calls = []
+    for s in lines:
+        toks = md.parse(s)
+        if not toks:
+            calls.append([C.cps(s), "blank", [], [], -1])
+            continue
+        t = toks[0]
+        st = t.attrs.get("start", -1) if t.attrs else -1
+        calls.append([C.cps(s), t.type, C.cps(t.markup), C.cps(t.info), st if isinstance(st, int) and st < 2 ** 31 else -2])
+    return {"calls": calls}
+
+
+def leaf_stage(tier, rep):
+    """LeafBlocks.tla: which block a line opens (recognisers and their precedence) vs the real block machine,
+    every line up to 4 (thorough: 5) characters over 15 characters, plus longer runs."""
+    import itertools
+
+    alpha = " \t-*_+#`~19.)a\\"
+    lines = []
+    for n in range(0, (5 if tier == "quick" else 6)):
+        for tup in itertools.product(alpha, repeat=n):
+            lines.append("".join(tup))
+    lines += ["#" * k + x for k in range(1, 9) for x in ("", " a", "\ta", "a", " ")]
+    lines += [c * k + x for c in "`~" for k in range(1, 7) for x in ("", " js", "a`b", " ~", "`")]
+    lines += [(" " * i) + m * k + t for i in range(0, 5) for m in "*-_" for k in range(1, 6) for t in ("", " ", " a", "\t" + m, " " + m + " " + m)]
+    lines += [d + e + x for d in ("0", "1", "01", "123456789", "1234567890", "007") for e in ".)" for x in ("", " a", "\ta", "a", "  ")]
+    jobs = [lines[i:i + 400] for i in range(0, len(lines), 400)]
+    traces = C.pmap(leaf_record, jobs, chunk=4)
+    verdicts, st = C.validate_traces("LeafBlocks", traces, shard=40, heap="4g")
+    rep.tlc_stats("LeafBlocks", st, len(traces))
+    for job, t, (v, pos) in zip(jobs, traces, verdicts):
+        if v != "ok":
+            c = t["calls"][pos - 2]
+            rep.violation(f"{v}:{json.dumps(job[pos - 2])}:got={c[1]}", {"engine": "trace", "module": "LeafBlocks", "clause": v,
+                                                                        "observed": c[1:], "input": {"leaf_lines": [job[pos - 2]]}})
+    rep.cov["block_starts_validated"] = len(lines)
+
+
 def run(tier, rep):
+    leaf_stage(tier, rep)
     flanking_stage(tier, rep)
     linetable_stage(tier, rep)
     render_stage(tier, rep)
@@ -368,6 +413,11 @@ def run(tier, rep):
 
 def replay(case, rep):
     i = case["input"]
+    if "leaf_lines" in i:
+        v, _ = C.validate_traces("LeafBlocks", [leaf_record(i["leaf_lines"])])
+        if v[0][0] != "ok":
+            rep.violation(case.get("key", "replay"), case)
+        return
     if "flank_calls" in i:
         v, _ = C.validate_traces("FlankingTrace", [flank_record([tuple(x) for x in i["flank_calls"]])])
         if v[0][0] != "ok":
@@ -411,5 +461,15 @@ def selftest():
     lt["tab"][1][3] += 1
     v3, _ = C.validate_traces("LineTableTrace", [lt])
     assert v3[0][0] == "line_table", v3
-    print("selftest SYSTEM ok:", v[0], v2[0], v3[0])
+    lf = leaf_record(["- a", "1) x", "  ## h", "~~~ i"])
+    v4, _ = C.validate_traces("LeafBlocks", [lf])
+    assert v4[0][0] == "ok", v4
+    lf["calls"][1][2] = C.cps(".")
+    v4, _ = C.validate_traces("LeafBlocks", [lf])
+    assert v4[0][0] == "block_start_markup", v4
+    fl = flank_record([(97, 42, 2, 32), (-1, 95, 1, 97)])
+    fl["calls"][1][4] = 0
+    v5, _ = C.validate_traces("FlankingTrace", [fl])
+    assert v5[0][0] == "can_open", v5
+    print("selftest SYSTEM ok:", v[0], v2[0], v3[0], v4[0], v5[0])
     return 0
